@@ -90,7 +90,14 @@ static unsigned int svf_parse_flags(unsigned int in_flags, const char* mod) {
             }
             if (adding) in_flags |= f; else in_flags &= ~f;
             j = 0;
-        } else buf[j++] = mod[i];
+        } else {
+            if (j + 1 >= sizeof(buf)) {
+                // no flag name is this long; without the check the name overran buf
+                fprintf(stderr, "svf_parse_flags(): unknown verification flag (name too long) near %.*s...\n", 32, buf);
+                exit(1);
+            }
+            buf[j++] = mod[i];
+        }
     }
     return in_flags;
 }
